@@ -330,6 +330,11 @@ func (f *Func) reachTarget(
 ) (map[interface{}]reflect.Value, error) {
 	log.Trace("reachTarget", "target", target)
 
+	// Mark this target as being resolved for the duration of this call so
+	// that nested resolutions can detect that they depend on us.
+	state.InProgress[graph.VertexID(target)] = struct{}{}
+	defer delete(state.InProgress, graph.VertexID(target))
+
 	// argMap will store all the values that this target depends on.
 	argMap := map[interface{}]reflect.Value{}
 
@@ -418,9 +423,11 @@ func (f *Func) reachTarget(
 			input = paths[i][1]
 		}
 
-		// If the path contains ourself, then this target is unsatisfied.
+		// If the path contains ourself or any function that is waiting on
+		// us to be resolved, then this target is unsatisfied. Following
+		// such a path would recurse forever.
 		for _, v := range paths[i] {
-			if v == target {
+			if _, ok := state.InProgress[graph.VertexID(v)]; ok {
 				valueable, ok := current.(valueConverter)
 				if !ok {
 					// This shouldn't be possible
@@ -635,6 +642,10 @@ type callState struct {
 
 	// TODO
 	InputSet map[interface{}]graph.Vertex
+
+	// InProgress is the set of function vertices (by id) that are currently
+	// being resolved by reachTarget, innermost and all its callers.
+	InProgress map[interface{}]struct{}
 }
 
 func newCallState() *callState {
@@ -642,5 +653,6 @@ func newCallState() *callState {
 		NamedValue: map[string]reflect.Value{},
 		TypedValue: map[reflect.Type]reflect.Value{},
 		InputSet:   map[interface{}]graph.Vertex{},
+		InProgress: map[interface{}]struct{}{},
 	}
 }
